@@ -2051,7 +2051,8 @@ protected:    // interface for the derived class
                     m_events_queue.m_deferred_events_queue.end(),
                     [](typename deferred_events_queue_t::value_type const& d1, typename deferred_events_queue_t::value_type const& d2)
                     {
-                        return d1.second > d2.second;
+                        // the sequence counter wraps, compare through the difference
+                        return static_cast<signed char>(d1.second - d2.second) > 0;
                     }
                 );
                 // reset sequence number for all
